@@ -336,10 +336,20 @@ def run(prop, tier, seed, replay):
         if corpus:
             res = W.run_model([W.tokenise(t) for _, t in corpus])
             for (fn, text), mr in zip(corpus, res):
-                oc = run_text(text, tmp, mr)
+                exp = None
+                side = os.path.join(CORPUS, fn[:-6] + '.design.json')
+                if os.path.exists(side):          # the abstract design the text was rendered from
+                    sd = json.load(open(side))
+                    exp = G.expectation(G.effective_design(G.from_json(sd['design']), sd.get('quirks') or ()))
+                oc = run_text(text, tmp, mr, expectation=exp)
                 account('corpus', oc, text)
                 st['hist']['corpus'] += 1
                 handle('corpus/' + fn, text, oc, tmp)
+            # every open finding must still reproduce on its witness (otherwise it was repaired)
+            hit = set(st['known_hits'])
+            for k in known:
+                if k.get('replay', '').startswith('corpus/eblif/') and k['id'] not in hit:
+                    print('NOTE: open known finding %s does not reproduce on its witness %s any more' % (k['id'], k['replay']), flush=True)
         # 2. bundled examples
         examples = W.bundled_examples()
         if tier != 'thorough':
